@@ -266,9 +266,19 @@ pub fn k_efi_mmap(ctx: &mut Ctx, g: &Guarded, t: &EFIMemoryMapTag) {
     for (i, ops) in hists(n).iter().enumerate() {
         let mut it = t.memory_areas();
         let txt = run_hist(ops, |op| {
+            match op {
+                Hop::Count => return Ok(format!("count {}", guard(|| it.clone().count())?)),
+                Hop::Last => {
+                    return Ok(match guard(|| it.clone().last())? {
+                        Some(d) => format!("last {}", view(g, d)),
+                        None => "last none".to_string(),
+                    })
+                }
+                _ => {}
+            }
             let r = guard(|| match op {
-                Hop::Next => it.next(),
                 Hop::Nth(k) => it.nth(k),
+                _ => it.next(),
             })?;
             Ok(match r {
                 Some(d) => format!("some {} len={}", view(g, d), gv(|| it.len())),
@@ -284,6 +294,10 @@ pub fn k_efi_mmap(ctx: &mut Ctx, g: &Guarded, t: &EFIMemoryMapTag) {
 pub enum Hop {
     Next,
     Nth(usize),
+    /// `count()` of a clone (fold-driven provided method); the iterator itself goes on
+    Count,
+    /// `last()` of a clone
+    Last,
 }
 
 pub fn hists(n: usize) -> Vec<Vec<Hop>> {
@@ -300,6 +314,10 @@ pub fn hists(n: usize) -> Vec<Vec<Hop>> {
         vec![Nth(m1), Next, Next],
         vec![Nth(n), Next],
         vec![Nth(0), Nth(0), Nth(0)],
+        vec![Next, Count, Next],
+        vec![Next, Next, Last],
+        vec![Nth(1), Count],
+        vec![Count, Last, Next],
     ]
 }
 
@@ -388,9 +406,41 @@ pub fn k_elf(ctx: &mut Ctx, g: &Guarded, t: &ElfSectionsTag) {
         for (i, ops) in hists(total).iter().enumerate() {
             let mut it = t.sections();
             let txt = run_hist(ops, |op| {
+                match op {
+                    Hop::Count => return Ok(format!("count {}", guard(|| it.clone().count())?)),
+                    Hop::Last => {
+                        // the last section a clone yields: identified by running the clone by hand as well
+                        let last = guard(|| it.clone().last())?;
+                        let mut c = it.clone();
+                        let mut idx_last: Option<isize> = None;
+                        loop {
+                            match guard(|| c.next())? {
+                                Some(_) => idx_last = Some((total - c.len() - 1) as isize),
+                                None => break,
+                            }
+                        }
+                        return Ok(match (last, idx_last) {
+                            (Some(l), Some(idx)) => {
+                                // `last()` must be the section at that index: compare a field both expose
+                                let same = guard(|| {
+                                    let mut c2 = it.clone();
+                                    let mut cur = None;
+                                    while let Some(x) = c2.next() {
+                                        cur = Some(x);
+                                    }
+                                    cur.map(|x| x == l).unwrap_or(false)
+                                })?;
+                                if same { format!("last {}", table + idx * es) } else { "last MISMATCH".to_string() }
+                            }
+                            (None, None) => "last none".to_string(),
+                            _ => "last MISMATCH".to_string(),
+                        });
+                    }
+                    _ => {}
+                }
                 let r = guard(|| match op {
-                    Hop::Next => it.next(),
                     Hop::Nth(k) => it.nth(k),
+                    _ => it.next(),
                 })?;
                 Ok(match r {
                     Some(_) => {
